@@ -395,3 +395,5 @@ add("C05", "shared chain object cut once per parent", "nifty/cl/operator_tree_op
 add("C05", "cut objects not remembered", "nifty/cl/operator_tree_optimiser.py", "                        truncated.add(id(leaf_op))\n", "", "R05.6")
 add("C05", "nodes registered from every chain position", "nifty/cl/operator_tree_optimiser.py", "            if isnode(op._ops[-1]):\n                nodes.append((op._ops[-1], active_node, left))\n                isleaf = False\n", "            for i in range(len(op._ops)):\n                if isnode(op._ops[i]):\n                    nodes.append((op._ops[i], active_node, left))\n                    isleaf = False\n", "R05.7")
 add("C18", "complexity of the white noise decided for the whole tree", "nifty/re/evi.py", "    return tree_map(\n        lambda x: jnp.sqrt(2.0) * x if jnp.iscomplexobj(x) else x, white\n    )\n", "    if not any(jnp.iscomplexobj(x) for x in jax.tree_util.tree_leaves(white)):\n        return white\n    return tree_map(lambda x: jnp.sqrt(2.0) * x, white)\n", "R18.11")
+add("C26", "file name base interpolated into the pattern as it stands", "nifty/cl/minimization/sample_list.py", "re.fullmatch(re.escape(base_file) + r\"\\.[0-9]+\\.pickle\", ff)", "re.match(f\"{base_file}.[0-9]+.pickle\", ff)", "R26.12")
+add("C26", "escaped base but open end", "nifty/cl/minimization/sample_list.py", "re.fullmatch(re.escape(base_file) + r\"\\.[0-9]+\\.pickle\", ff)", "re.match(re.escape(base_file) + r\"\\.[0-9]+\\.pickle\", ff)", "R26.12")
